@@ -44,6 +44,13 @@ def palette():
         ('cat', [rr.lit('\\', 'esc'), az]),                                # \\[a-z]
     ]
     pats = [P(rr.pr(rr.normalise(t)), rr.normalise(t)) for t in pats]
+    # patterns without any operator character, and patterns that begin with the start-of-string marker
+    # (which changes nothing for a token): shapes a "plain pattern" shortcut would get wrong
+    dd = rr.normalise(('cat', [dig, dig]))
+    xa = rr.normalise(('cat', [rr.lit(0x41, 'x2'), rr.lit('b')]))
+    iff = rr.normalise(('cat', [I, F]))
+    iaz = rr.normalise(('cat', [I, rr.q(az, 0, None)]))
+    pats += [P(rr.pr(dd), dd), P(rr.pr(xa), xa), P('^' + rr.pr(iff), iff), P('^' + rr.pr(iaz), iaz), P('^' + rr.pr(dd), dd)]
     lits = [LIT('if', 'if'), LIT('i', 'i'), LIT('in', 'in'), LIT('a', 'a'), LIT('ab', 'ab'), LIT('+', '+'), LIT('++', '++'), LIT('12', '12'),
             LIT('\\"', '"'), LIT('\\\\', '\\'), LIT('a\\"b', 'a"b'), LIT('\\\\n', '\\n'),
             # adjacent escapes
